@@ -44,7 +44,7 @@ EXPECTED_PROBES = {
             'pieces_of_formatted_receiver', 'separator_text_recurs_in_piece'],
     'C16': ['empty_match', 'adjacent_matches', 'count_cuts_matches', 'case_insensitivity_matters',
             'plain_pattern_with_metacharacters'],
-    'C17': ['found_forward', 'found_reverse', 'start_inside_a_run', 'selection_on_proper_subrange'],
+    'C17': ['found_forward', 'found_reverse', 'start_inside_a_run', 'selection_on_proper_subrange', 'bound_beyond_length'],
     'C12': ['pad_left_extend_formatted', 'pad_left_no_extend_formatted', 'pad_right_only_extend_formatted',
             'pad_right_only_no_extend_formatted', 'center_odd_padding', 'fill_is_grammar_character'],
 }
